@@ -437,6 +437,23 @@ fn d14_chunk_boundary_inside_script_does_not_change_the_output() {
     assert_eq!(String::from_utf8_lossy(&whole), String::from_utf8_lossy(&parts));
 }
 
+/// D21 (C03, R03.7) — known finding: a chunk boundary inside a multi-byte character is decoded as invalid
+/// UTF-8, the filter falls back to pass-through and the insertion is lost.
+#[test]
+fn d21_chunk_cut_inside_multibyte_character() {
+    let doc = "<html><body><p>caf\u{e9} cr\u{e8}me</p></body></html>".as_bytes();
+    let mut f = html_filter("append_child", None);
+    let mut whole = f.filter(doc.to_vec(), None);
+    whole.extend(f.end(None));
+    for cut in 1..doc.len() {
+        let mut f = html_filter("append_child", None);
+        let mut parts = f.filter(doc[..cut].to_vec(), None);
+        parts.extend(f.filter(doc[cut..].to_vec(), None));
+        parts.extend(f.end(None));
+        assert_eq!(String::from_utf8_lossy(&whole), String::from_utf8_lossy(&parts), "cut after byte {}", cut);
+    }
+}
+
 /// D17 (C19, R19.3): explain / impact compute the status with the example's response code first,
 /// while the live pipeline (and test_examples) decide at request time first.
 #[test]
